@@ -49,7 +49,7 @@ class C07(vlib.Spec):
         return cases + morph.gen_ght_cases(rng, self.ght_shapes(), tier, n // 3)
 
     def n_cases(self, tier):
-        return 850 if tier == "quick" else 6800
+        return 680 if tier == "quick" else 6800
 
     def to_coq(self, case, res):
         return morph.case_term(case, res)
